@@ -9,6 +9,10 @@ package db
 // ---------------------------------------------------------------------------------------
 // Specification functions: varints and fixed-width integers (SQLite file format, section 1.6)
 //
+//@ smt slices
+//@ (define-fun within ((s Slice) (r Slice)) Bool (and (= (s_reg s) (s_reg r)) (bvule (s_off r) (s_off s)) (bvule (bvadd (s_off s) (s_len s)) (bvadd (s_off r) (s_len r))) (bvule (s_off s) (bvadd (s_off r) (s_len r))) (bvsle #x0000000000000000 (s_len s)) (bvsle (s_len s) (s_len r)) (bvsle (s_len s) (s_cap s))))
+//@ (define-fun suffix_of ((s Slice) (r Slice)) Bool (and (within s r) (= (bvadd (s_off s) (s_len s)) (bvadd (s_off r) (s_len r)))))
+
 //@ smt bits
 //@ (define-fun byte_at ((a (Array (_ BitVec 64) (_ BitVec 8))) (o (_ BitVec 64)) (i (_ BitVec 64))) (_ BitVec 8) (select a (bvadd o i)))
 //@ (define-fun hibit ((a (Array (_ BitVec 64) (_ BitVec 8))) (o (_ BitVec 64)) (i (_ BitVec 64))) Bool (bvuge (byte_at a o i) #x80))
@@ -23,6 +27,7 @@ package db
 //@ (define-fun be64 ((a (Array (_ BitVec 64) (_ BitVec 8))) (o (_ BitVec 64))) (_ BitVec 64) (concat (byte_at a o #x0000000000000000) (byte_at a o #x0000000000000001) (byte_at a o #x0000000000000002) (byte_at a o #x0000000000000003) (byte_at a o #x0000000000000004) (byte_at a o #x0000000000000005) (byte_at a o #x0000000000000006) (byte_at a o #x0000000000000007)))
 
 //@ func db.readVarint
+//@   pure
 //@   props C14 C01 C05
 //@   ensures [len] r1 == varint_len(mem(b), off(b), len(b))
 //@   ensures [value] r1 != -1 ==> r0 == varint_val(mem(b), off(b), r1)
@@ -34,11 +39,161 @@ package db
 //@   loop 1 decreases 9 - i
 
 //@ func db.readTwos24
+//@   pure
 //@   props C14 C01
 //@   requires len(b) >= 3
 //@   ensures result == twos24(mem(b), off(b))
 
 //@ func db.readTwos48
+//@   pure
 //@   props C14 C01
 //@   requires len(b) >= 6
 //@   ensures result == twos48(mem(b), off(b))
+
+// ---------------------------------------------------------------------------------------
+// Local payload size and cell layouts (file format sections 1.5 "B-tree Pages", 1.6 "Cell format")
+// U = usable page size (= page size: reserved space is refused by parseHeader), P = payload size,
+// X = U-35 for table leaves and ((U-12)*64/255)-23 for index cells,
+// M = ((U-12)*32/255)-23, K = M+((P-M)%(U-4)); local = P if P<=X, K if K<=X, else M.
+//
+//@ smt payload
+//@ (define-fun legal_ps ((u (_ BitVec 64))) Bool (or (= u #x0000000000000200) (= u #x0000000000000400) (= u #x0000000000000800) (= u #x0000000000001000) (= u #x0000000000002000) (= u #x0000000000004000) (= u #x0000000000008000) (= u #x0000000000010000)))
+//@ (define-fun x_table ((u (_ BitVec 64))) (_ BitVec 64) (bvsub u #x0000000000000023))
+//@ (define-fun x_index ((u (_ BitVec 64))) (_ BitVec 64) (bvsub (bvsdiv (bvmul (bvsub u #x000000000000000c) #x0000000000000040) #x00000000000000ff) #x0000000000000017))
+//@ (define-fun ls_m ((u (_ BitVec 64))) (_ BitVec 64) (bvsub (bvsdiv (bvmul (bvsub u #x000000000000000c) #x0000000000000020) #x00000000000000ff) #x0000000000000017))
+//@ (define-fun ls_k ((p (_ BitVec 64)) (u (_ BitVec 64))) (_ BitVec 64) (bvadd (ls_m u) (bvsrem (bvsub p (ls_m u)) (bvsub u #x0000000000000004))))
+//@ (define-fun local_size ((p (_ BitVec 64)) (u (_ BitVec 64)) (x (_ BitVec 64))) (_ BitVec 64) (ite (bvsle p x) p (ite (bvsle (ls_k p u) x) (ls_k p u) (ls_m u))))
+//@ (define-fun tl_n1 ((a (Array (_ BitVec 64) (_ BitVec 8))) (o (_ BitVec 64)) (n (_ BitVec 64))) (_ BitVec 64) (varint_len a o n))
+//@ (define-fun tl_plen ((a (Array (_ BitVec 64) (_ BitVec 8))) (o (_ BitVec 64)) (n (_ BitVec 64))) (_ BitVec 64) (varint_val a o (tl_n1 a o n)))
+//@ (define-fun tl_n2 ((a (Array (_ BitVec 64) (_ BitVec 8))) (o (_ BitVec 64)) (n (_ BitVec 64))) (_ BitVec 64) (varint_len a (bvadd o (tl_n1 a o n)) (bvsub n (tl_n1 a o n))))
+//@ (define-fun tl_rowid ((a (Array (_ BitVec 64) (_ BitVec 8))) (o (_ BitVec 64)) (n (_ BitVec 64))) (_ BitVec 64) (varint_val a (bvadd o (tl_n1 a o n)) (tl_n2 a o n)))
+//@ (define-fun tl_hdr ((a (Array (_ BitVec 64) (_ BitVec 8))) (o (_ BitVec 64)) (n (_ BitVec 64))) (_ BitVec 64) (bvadd (tl_n1 a o n) (tl_n2 a o n)))
+//@ (define-fun zx32 ((x (_ BitVec 32))) (_ BitVec 64) ((_ zero_extend 32) x))
+//@ (define-fun zx16 ((x (_ BitVec 16))) (_ BitVec 64) ((_ zero_extend 48) x))
+
+//@ func db.calculateCellInPageBytes
+//@   pure
+//@   props C14 C01 C02 C05
+//@   requires legal_ps(pageSize)
+//@   requires maxInPagePayload == x_table(pageSize) || maxInPagePayload == x_index(pageSize)
+//@   ensures [spec] l >= 0 ==> result == local_size(l, pageSize, maxInPagePayload)
+//@   ensures [range] l >= 0 ==> 0 <= result && result <= l && result <= maxInPagePayload
+//@   ensures [spillrange] l > maxInPagePayload ==> ls_m(pageSize) <= result
+
+//@ func db.parsePayload
+//@   pure
+//@   props C14 C01 C02 C05
+//@   requires legal_ps(pageSize)
+//@   requires maxInPagePayload == x_table(pageSize) || maxInPagePayload == x_index(pageSize)
+//@   ensures [neg] l < 0 ==> err != nil
+//@   ensures [length] err == nil ==> r0.Length == l
+//@   ensures [inline] err == nil && l <= maxInPagePayload ==> r0.Overflow == 0 && reg(r0.Payload) == reg(c) && off(r0.Payload) == off(c) && len(r0.Payload) >= l
+//@   ensures [spill] err == nil && l > maxInPagePayload ==> r0.Payload == c[:local_size(l, pageSize, maxInPagePayload)]
+//@   ensures [ovfl] err == nil && l > maxInPagePayload ==> r0.Overflow != 0 && r0.Overflow == zx32(be32(mem(c), off(c) + local_size(l, pageSize, maxInPagePayload)))
+//@   ensures [wf] err == nil ==> 0 <= r0.Length && (r0.Overflow == 0 ==> r0.Length <= len(r0.Payload)) && (r0.Overflow != 0 ==> len(r0.Payload) < r0.Length) && 0 <= r0.Overflow && r0.Overflow <= 4294967295
+//@   ensures [accept-inline] 0 <= l && l <= maxInPagePayload && l <= len(c) ==> err == nil
+//@   ensures [accept-spill] l > maxInPagePayload && len(c) >= local_size(l, pageSize, maxInPagePayload) + 4 && be32(mem(c), off(c) + local_size(l, pageSize, maxInPagePayload)) != 0 ==> err == nil
+
+//@ func db.parseCellpointers
+//@   pure
+//@   props C01 C02 C05 C14
+//@   requires 0 <= n && n <= 65535 && 0 <= maxLen
+//@   ensures [len] err == nil ==> len(r0) == n
+//@   ensures [ptr] err == nil ==> (forall j int :: 0 <= j && j < n ==> r0[j] == zx16(be16(mem(pointers), off(pointers) + 2*j)))
+//@   ensures [bound] err == nil ==> (forall j int :: 0 <= j && j < n ==> 0 <= r0[j] && r0[j] <= maxLen)
+//@   ensures [fresh] err == nil ==> fresh(r0)
+//@   ensures [accept] len(pointers) >= 2*n && (forall j int :: 0 <= j && j < n ==> zx16(be16(mem(pointers), off(pointers) + 2*j)) <= maxLen) ==> err == nil
+//@   loop 1 invariant len(cs) == n && 0 <= $i && $i <= n && reg(cs) != reg(pointers) && len(pointers) >= 2*n
+//@   loop 1 invariant forall j int :: 0 <= j && j < $i ==> cs[j] == zx16(be16(mem(pointers), off(pointers) + 2*j))
+//@   loop 1 invariant forall j int :: 0 <= j && j < $i ==> 0 <= cs[j] && cs[j] <= maxLen
+//@   loop 1 invariant fresh(cs)
+//@   loop 1 decreases n - $i
+
+//@ smt cells
+//@ (define-fun wf_payload ((p S_db_cellPayload)) Bool (and (bvsle #x0000000000000000 (S_db_cellPayload_0_Length p)) (=> (= (S_db_cellPayload_2_Overflow p) #x0000000000000000) (bvsle (S_db_cellPayload_0_Length p) (s_len (S_db_cellPayload_1_Payload p)))) (=> (not (= (S_db_cellPayload_2_Overflow p) #x0000000000000000)) (bvslt (s_len (S_db_cellPayload_1_Payload p)) (S_db_cellPayload_0_Length p))) (bvsle #x0000000000000000 (S_db_cellPayload_2_Overflow p)) (bvsle (S_db_cellPayload_2_Overflow p) #x00000000ffffffff) (bvsle #x0000000000000000 (s_len (S_db_cellPayload_1_Payload p))) (bvsle (s_len (S_db_cellPayload_1_Payload p)) (s_cap (S_db_cellPayload_1_Payload p)))))
+//@ (define-fun il_n1 ((a (Array (_ BitVec 64) (_ BitVec 8))) (o (_ BitVec 64)) (n (_ BitVec 64))) (_ BitVec 64) (varint_len a o n))
+//@ (define-fun il_plen ((a (Array (_ BitVec 64) (_ BitVec 8))) (o (_ BitVec 64)) (n (_ BitVec 64))) (_ BitVec 64) (varint_val a o (il_n1 a o n)))
+//@ (define-fun ti_n ((a (Array (_ BitVec 64) (_ BitVec 8))) (o (_ BitVec 64)) (n (_ BitVec 64))) (_ BitVec 64) (varint_len a (bvadd o #x0000000000000004) (bvsub n #x0000000000000004)))
+//@ (define-fun ti_key ((a (Array (_ BitVec 64) (_ BitVec 8))) (o (_ BitVec 64)) (n (_ BitVec 64))) (_ BitVec 64) (varint_val a (bvadd o #x0000000000000004) (ti_n a o n)))
+
+// Table leaf cell: varint payload size, varint rowid, payload (local part), [4-byte first overflow page].
+//@ func db.parseTableLeaf
+//@   pure
+//@   props C14 C01 C04 C05
+//@   requires legal_ps(pageSize)
+//@   ensures [short] tl_n1(mem(c), off(c), len(c)) == -1 || tl_n2(mem(c), off(c), len(c)) == -1 ==> err != nil
+//@   ensures [rowid] err == nil ==> r0.left == tl_rowid(mem(c), off(c), len(c))
+//@   ensures [plen] err == nil ==> r0.payload.Length == tl_plen(mem(c), off(c), len(c))
+//@   ensures [pstart] err == nil ==> reg(r0.payload.Payload) == reg(c) && off(r0.payload.Payload) == off(c) + tl_hdr(mem(c), off(c), len(c))
+//@   ensures [inline] err == nil && r0.payload.Length <= x_table(pageSize) ==> r0.payload.Overflow == 0
+//@   ensures [spill] err == nil && r0.payload.Length > x_table(pageSize) ==> len(r0.payload.Payload) == local_size(r0.payload.Length, pageSize, x_table(pageSize)) && r0.payload.Overflow == zx32(be32(mem(c), off(c) + tl_hdr(mem(c), off(c), len(c)) + local_size(r0.payload.Length, pageSize, x_table(pageSize))))
+//@   ensures [wf] err == nil ==> wf_payload(r0.payload)
+
+// Table interior cell: 4-byte left child page, varint key.
+//@ func db.parseTableInterior
+//@   pure
+//@   props C14 C01 C04 C05
+//@   ensures [err] err != nil <==> (len(c) < 4 || ti_n(mem(c), off(c), len(c)) == -1)
+//@   ensures [left] err == nil ==> r0.left == zx32(be32(mem(c), off(c)))
+//@   ensures [key] err == nil ==> r0.key == ti_key(mem(c), off(c), len(c))
+
+// Index leaf cell: varint payload size, payload, [overflow page].
+//@ func db.parseIndexLeaf
+//@   pure
+//@   props C14 C02 C03 C13 C05
+//@   requires legal_ps(pageSize)
+//@   ensures [short] il_n1(mem(c), off(c), len(c)) == -1 ==> err != nil
+//@   ensures [plen] err == nil ==> r0.Length == il_plen(mem(c), off(c), len(c))
+//@   ensures [pstart] err == nil ==> reg(r0.Payload) == reg(c) && off(r0.Payload) == off(c) + il_n1(mem(c), off(c), len(c))
+//@   ensures [inline] err == nil && r0.Length <= x_index(pageSize) ==> r0.Overflow == 0
+//@   ensures [spill] err == nil && r0.Length > x_index(pageSize) ==> len(r0.Payload) == local_size(r0.Length, pageSize, x_index(pageSize)) && r0.Overflow == zx32(be32(mem(c), off(c) + il_n1(mem(c), off(c), len(c)) + local_size(r0.Length, pageSize, x_index(pageSize))))
+//@   ensures [wf] err == nil ==> wf_payload(r0)
+
+// Index interior cell: 4-byte left child page, varint payload size, payload, [overflow page].
+//@ func db.parseIndexInterior
+//@   pure
+//@   props C14 C02 C03 C13 C05
+//@   requires legal_ps(pageSize)
+//@   ensures [short] len(c) < 4 || il_n1(mem(c), off(c) + 4, len(c) - 4) == -1 ==> err != nil
+//@   ensures [left] err == nil ==> r0.left == zx32(be32(mem(c), off(c)))
+//@   ensures [plen] err == nil ==> r0.payload.Length == il_plen(mem(c), off(c) + 4, len(c) - 4)
+//@   ensures [pstart] err == nil ==> reg(r0.payload.Payload) == reg(c) && off(r0.payload.Payload) == off(c) + 4 + il_n1(mem(c), off(c) + 4, len(c) - 4)
+//@   ensures [inline] err == nil && r0.payload.Length <= x_index(pageSize) ==> r0.payload.Overflow == 0
+//@   ensures [spill] err == nil && r0.payload.Length > x_index(pageSize) ==> len(r0.payload.Payload) == local_size(r0.payload.Length, pageSize, x_index(pageSize)) && r0.payload.Overflow == zx32(be32(mem(c), off(c) + 4 + il_n1(mem(c), off(c) + 4, len(c) - 4) + local_size(r0.payload.Length, pageSize, x_index(pageSize))))
+//@   ensures [wf] err == nil ==> wf_payload(r0.payload)
+
+// ---------------------------------------------------------------------------------------
+// Record format (file format section 2.1): header-size varint, serial-type varints, then the
+// values. Serial types: 0 NULL, 1..6 big-endian twos-complement integers of 1,2,3,4,6,8 bytes,
+// 7 IEEE double, 8 and 9 the constants 0 and 1, 10 and 11 reserved, N>=12 even BLOB of (N-12)/2
+// bytes, N>=13 odd TEXT of (N-13)/2 bytes.
+//
+//@ smt record
+//@ (define-fun serial_ok ((t (_ BitVec 64))) Bool (and (bvsge t #x0000000000000000) (not (= t #x000000000000000a)) (not (= t #x000000000000000b))))
+//@ (define-fun serial_size ((t (_ BitVec 64))) (_ BitVec 64) (ite (= t #x0000000000000000) #x0000000000000000 (ite (= t #x0000000000000001) #x0000000000000001 (ite (= t #x0000000000000002) #x0000000000000002 (ite (= t #x0000000000000003) #x0000000000000003 (ite (= t #x0000000000000004) #x0000000000000004 (ite (= t #x0000000000000005) #x0000000000000006 (ite (= t #x0000000000000006) #x0000000000000008 (ite (= t #x0000000000000007) #x0000000000000008 (ite (= t #x0000000000000008) #x0000000000000000 (ite (= t #x0000000000000009) #x0000000000000000 (bvlshr (bvsub t (ite (= ((_ extract 0 0) t) #b0) #x000000000000000c #x000000000000000d)) #x0000000000000001))))))))))))
+//@ (define-fun serial_value ((t (_ BitVec 64)) (a (Array (_ BitVec 64) (_ BitVec 8))) (b Slice)) Iface (ite (= t #x0000000000000000) if_nil (ite (= t #x0000000000000001) (if_int64 ((_ sign_extend 56) (select a (bvadd (s_off b) #x0000000000000000)))) (ite (= t #x0000000000000002) (if_int64 ((_ sign_extend 48) (concat (select a (bvadd (s_off b) #x0000000000000000)) (select a (bvadd (s_off b) #x0000000000000001))))) (ite (= t #x0000000000000003) (if_int64 (twos24 a (s_off b))) (ite (= t #x0000000000000004) (if_int64 ((_ sign_extend 32) (concat (select a (bvadd (s_off b) #x0000000000000000)) (select a (bvadd (s_off b) #x0000000000000001)) (select a (bvadd (s_off b) #x0000000000000002)) (select a (bvadd (s_off b) #x0000000000000003))))) (ite (= t #x0000000000000005) (if_int64 (twos48 a (s_off b))) (ite (= t #x0000000000000006) (if_int64 (be64 a (s_off b))) (ite (= t #x0000000000000007) (if_float64 ((_ to_fp 11 53) (be64 a (s_off b)))) (ite (= t #x0000000000000008) (if_int64 #x0000000000000000) (ite (= t #x0000000000000009) (if_int64 #x0000000000000001) (ite (= ((_ extract 0 0) t) #b0) (if_LRbyte (mk_slice (s_reg b) (s_off b) (serial_size t) (s_cap b))) (if_string (mk_str a (s_off b) (serial_size t)))))))))))))))
+//@ (define-fun storable ((v Iface)) Bool (or ((_ is if_nil) v) ((_ is if_int64) v) ((_ is if_float64) v) ((_ is if_string) v) ((_ is if_LRbyte) v)))
+
+//@ func db.parseRecord
+//@   props C14 C01 C02 C05
+//@   pure
+//@   ensures [hdr] varint_len(mem(r), off(r), len(r)) == -1 ==> err != nil
+//@   ensures [storable] forall k int :: 0 <= k && k < len(r0) ==> storable(r0[k])
+//@   ensures [fresh] r0 == nil || fresh(r0)
+//@   loop 1 invariant within(header, r)
+//@   loop 1 invariant suffix_of(body, r)
+//@   loop 1 invariant 0 <= len(res) && len(res) <= cap(res) && (reg(res) == 0 || fresh(res)) && (reg(res) == 0 ==> len(res) == 0 && cap(res) == 0) && ule(off(res), 0)
+//@   loop 1 invariant forall k int :: 0 <= k && k < len(res) ==> storable(res[k])
+//@   loop 1 step [type] serial_ok(c)
+//@   loop 1 step [value] len(res) == pre(len(res)) + 1 && res[pre(len(res))] == serial_value(c, mem(r), pre(body))
+//@   loop 1 step [advance] off(body) == pre(off(body)) + serial_size(c) && len(body) == pre(len(body)) - serial_size(c)
+//@   loop 1 step [prefix] forall k int :: 0 <= k && k < pre(len(res)) ==> res[k] == pre(res[k])
+//@   loop 1 step [header] off(header) == pre(off(header)) + varint_len(mem(r), pre(off(header)), pre(len(header))) && c == varint_val(mem(r), pre(off(header)), varint_len(mem(r), pre(off(header)), pre(len(header))))
+//@   loop 1 decreases len(header)
+
+//@ func db.ChompRowid
+//@   props C02 C03 C05
+//@   pure
+//@   ensures [empty] len(rec) == 0 ==> err != nil
+//@   ensures [ok] err == nil ==> isInt64(rec[len(rec)-1]) && r0 == asInt64(rec[len(rec)-1]) && r1 == rec[:len(rec)-1]
+//@   ensures [accept] len(rec) > 0 && isInt64(rec[len(rec)-1]) ==> err == nil
